@@ -100,9 +100,11 @@ package xmpp
 //@ func (xmpp.Matcher).Match(m, p, match) (ok)
 //@   ensures ok == accepts(m, p)
 //
+// A-CB for handlers: a handler acts on the library only through the Sender it is given.
 //@ func (xmpp.Handler).HandlePacket(h, s, p)
 //@   emit HandlePacket(h, s, p)
-//@   havoc *
+//@   assigns senderQueue(s).Uslice
+//@   emits Write
 //
 //@ func (stanza.IQPayload).Namespace(x) (ns)
 //@   ensures ns == nsOf(x)
@@ -175,17 +177,19 @@ package xmpp
 //@   emit Send(s, packet)
 //@   emit SendAttrs(pkType(packet), pkId(packet), pkFrom(packet), pkTo(packet), pkReason(packet))
 //@   assigns senderQueue(s).Uslice
+//@   emits Write
 //@ func (xmpp.Sender).SendRaw(s, stz) (err)
 //@   emit SendRaw(s, stz)
 //@   assigns senderQueue(s).Uslice
+//@   emits Write
 //
 //@ func xmpp.iqNotImplemented(s, iq)
 //@   requires s != nil && iq != nil
 //@   ensures [C06.iqerr.reply] count(Send) == old(count(Send)) + 1 && last(Send, 0) == s && typeof(last(Send, 1)) == *stanza.IQ && last(Send, 1).(*stanza.IQ) == iq
 //@   ensures [C06.iqerr.attrs] count(SendAttrs) == old(count(SendAttrs)) + 1 && last(SendAttrs, 0) == "error" && last(SendAttrs, 1) == old(iq.Id) && last(SendAttrs, 2) == old(iq.To) && last(SendAttrs, 3) == old(iq.From) && last(SendAttrs, 4) == "feature-not-implemented"
 //@   ensures count(HandlePacket) == old(count(HandlePacket))
-//@   assigns *
-//@   emits Send, SendAttrs
+//@   assigns iq.Type, iq.From, iq.To, iq.Error, senderQueue(s).Uslice
+//@   emits Send, SendAttrs, Write
 //
 //@ pred isIQRequest(p) := typeof(p) == *stanza.IQ && (p.(*stanza.IQ).Type == "get" || p.(*stanza.IQ).Type == "set")
 //@ pred pendingIQ(r, p) := typeof(p) == *stanza.IQ && r.IQResultRoutes != nil && mapHas(r.IQResultRoutes, p.(*stanza.IQ).Id)
@@ -195,7 +199,7 @@ package xmpp
 //@   requires s != nil
 //@   requires [C05.nilqueue] uaq != nil
 //@   assigns uaq.Uslice, senderQueue(s).Uslice
-//@   emits Send, SendAttrs, SendRaw
+//@   emits Send, SendAttrs, SendRaw, Write
 //
 //@ func (*xmpp.Router).route(r, s, p)
 //@   requires wfRouter(r) && s != nil && p != nil
@@ -206,8 +210,9 @@ package xmpp
 //@   ensures [C06.once.first] old(plainPacket(r, p)) && !old(noRoute(r, p)) ==> exists(i, 0, old(len(r.routes)), old(firstAt(r, p, i)) && last(HandlePacket, 0) == old(r.routes[i].handler))
 //@   ensures [C06.iqerr] old(plainPacket(r, p)) && old(noRoute(r, p)) && old(isIQRequest(p)) ==> count(HandlePacket) == old(count(HandlePacket)) && count(Send) == old(count(Send)) + 1 && last(Send, 0) == s && last(Send, 1) == p && count(SendAttrs) == old(count(SendAttrs)) + 1 && last(SendAttrs, 0) == "error" && last(SendAttrs, 1) == old(pkId(p)) && last(SendAttrs, 2) == old(pkTo(p)) && last(SendAttrs, 3) == old(pkFrom(p)) && last(SendAttrs, 4) == "feature-not-implemented"
 //@   ensures [C06.quiet] old(plainPacket(r, p)) && old(noRoute(r, p)) && !old(isIQRequest(p)) ==> count(HandlePacket) == old(count(HandlePacket)) && count(Send) == old(count(Send)) && count(SendRaw) == old(count(SendRaw))
-//@   assigns *
-//@   emits HandlePacket, Send, SendAttrs, SendRaw
+//@   assigns senderQueue(s).Uslice, p.(*stanza.IQ).Type, p.(*stanza.IQ).From, p.(*stanza.IQ).To, p.(*stanza.IQ).Error
+//@   elems r.IQResultRoutes
+//@   emits HandlePacket, Send, SendAttrs, SendRaw, Write, ChanSend, Close
 
 // ---------------------------------------------------------------------------
 // C16: component handshake
@@ -328,3 +333,43 @@ package xmpp
 //@   ensures s.Features == old(s.Features) && s.transport == old(s.transport)
 //@   assigns s.err
 //@   emits Write, PacketRead
+
+// ---------------------------------------------------------------------------
+// C08 / C10: sending
+//
+//@ event StanzaRead(pk Iface)
+//@ event AckReqRead(pk Iface)
+//@ pred smOn(c) := c.config.StreamManagementEnable
+//@ pred cQueue(c) := c.Session.SMState.UnAckQueue
+//@ pred isSMNonza(p) := typeof(p) == stanza.SMRequest || typeof(p) == stanza.SMAnswer
+//@ pred clientOK(c) := c != nil && c.config != nil && (c.transport != nil && smOn(c) ==> c.Session != nil && wfQueue(cQueue(c)))
+//@ pred queueKept(q, n) := forall(k, 0, n, q.Uslice[k] == old(q.Uslice[k]) && q.Uslice[k].Id == old(q.Uslice[k].Id) && q.Uslice[k].Stz == old(q.Uslice[k].Stz))
+//@ pred queuePlusOne(q, stz) := len(q.Uslice) == old(len(q.Uslice)) + 1 && queueKept(q, old(len(q.Uslice))) && q.Uslice[old(len(q.Uslice))].Stz == stz
+//
+//@ func (*xmpp.Client).Send(c, packet) (err)
+//@   requires clientOK(c)
+//@   emit Send(iface(c), packet)
+//@   emit SendAttrs(pkType(packet), pkId(packet), pkFrom(packet), pkTo(packet), pkReason(packet))
+//@   ensures [C08.send.atmost] count(Write) <= old(count(Write)) + 1
+//@   ensures [C08.send.once] err == nil ==> count(Write) == old(count(Write)) + 1 && last(Write, 0) == old(c.transport) && last(Write, 1) == xmlOf(packet) && last(Write, 2)
+//@   ensures [C08.send.err]  (count(Write) == old(count(Write)) + 1 && !last(Write, 2)) ==> err != nil
+//@   ensures [C10.send.held]  (old(c.transport) != nil && smOn(c) && cQueue(c) != nil && !isSMNonza(packet) && count(Write) == old(count(Write)) + 1) ==> queuePlusOne(cQueue(c), xmlOf(packet))
+//@   ensures [C10.send.nonza] (old(c.transport) != nil && smOn(c) && cQueue(c) != nil && isSMNonza(packet)) ==> sameQueue(cQueue(c))
+//@   ensures [C10.send.off]   (old(c.transport) != nil && !smOn(c) && c.Session != nil && cQueue(c) != nil) ==> sameQueue(cQueue(c))
+//@   ensures c.Session == old(c.Session) && c.config == old(c.config) && c.transport == old(c.transport) && (c.Session != nil ==> cQueue(c) == old(cQueue(c)) && c.Session.SMState.Inbound == old(c.Session.SMState.Inbound)) && clientOK(c)
+//@   assigns c.Session.SMState.UnAckQueue.Uslice
+//@   elems c.Session.SMState.UnAckQueue.Uslice
+//@   emits Write
+//
+//@ func (*xmpp.Client).SendRaw(c, packet) (err)
+//@   requires clientOK(c)
+//@   emit SendRaw(iface(c), packet)
+//@   ensures [C08.sendraw.atmost] count(Write) <= old(count(Write)) + 1
+//@   ensures [C08.sendraw.once] err == nil ==> count(Write) == old(count(Write)) + 1 && last(Write, 0) == old(c.transport) && last(Write, 1) == packet && last(Write, 2)
+//@   ensures [C08.sendraw.err]  (count(Write) == old(count(Write)) + 1 && !last(Write, 2)) ==> err != nil
+//@   ensures [C10.sendraw.held] (old(c.transport) != nil && smOn(c) && cQueue(c) != nil) ==> queuePlusOne(cQueue(c), packet)
+//@   ensures [C10.sendraw.off]  (old(c.transport) != nil && !smOn(c) && c.Session != nil && cQueue(c) != nil) ==> sameQueue(cQueue(c))
+//@   ensures c.Session == old(c.Session) && c.config == old(c.config) && c.transport == old(c.transport) && (c.Session != nil ==> cQueue(c) == old(cQueue(c)) && c.Session.SMState.Inbound == old(c.Session.SMState.Inbound)) && clientOK(c)
+//@   assigns c.Session.SMState.UnAckQueue.Uslice
+//@   elems c.Session.SMState.UnAckQueue.Uslice
+//@   emits Write
